@@ -276,3 +276,28 @@ func (r *Report) Finish(evidencePath string) int {
 	}
 	return 0
 }
+
+// importPremises runs `run` against a scratch report and re-states each obligation it produced (optionally
+// filtered) under `rule` of the current report, so that a property whose guarantee rests on another property's
+// rule carries that rule as its own premise.
+func importPremises(c *Ctx, rule, prefix, why string, keep func(o *Ob) bool, run func()) int {
+	r := c.R
+	sub := &Report{Rules: map[string]string{}, known: map[string]string{}, knownSeen: map[string]bool{}, Extra: map[string]interface{}{}, c: c}
+	c.R = sub
+	run()
+	c.R = r
+	n := 0
+	for _, o := range sub.Obs {
+		if keep != nil && !keep(o) {
+			continue
+		}
+		n++
+		detail := o.Detail
+		if detail == "" {
+			detail = why
+		}
+		ob := r.Check(rule, o.Func, prefix+o.Construct, 0, o.Verdict == "discharged", detail)
+		ob.Pos = o.Pos
+	}
+	return n
+}
